@@ -18,6 +18,7 @@ Record script := mkScript {
 Inductive op :=
 | OpCall (t : nat) (o : opts) (sc : script)     (* HostClient.Do for request id t, until it returns *)
 | OpSrvMore (t : nat) (n : nat) (cl : bool)     (* the server sends n more symbols on the connection held by t (then closes) *)
+| OpSrvConn (cid : nat) (n : nat) (cl : bool)   (* the same on connection number cid, wherever it is (nothing if it was closed) *)
 | OpStreamRead (t : nat) (n : nat)              (* the caller reads up to n units from resp.BodyStream() *)
 | OpCloseStream (t : nat) (werr : bool)         (* resp.CloseBodyStream() / resp.closeBodyStream(err) *)
 | OpCleanIdle.                                  (* HostClient.CloseIdleConnections() *)
@@ -34,10 +35,11 @@ Definition code (o : outcome) : N := match o with OOk => 0 | OTimeout => 1 | OTo
 Definition NOFREE : N := 9%N.
 Definition OUTOFMODEL : N := 99%N.
 
-(* a delivered symbol: 4*tag + class (0 genuine head, 1 body unit that is a crafted head, 2 plain body unit); terminators are invisible *)
+(* a delivered symbol: 4*tag + class (0 genuine head, 1 body unit that is a crafted head, 2 plain body unit); chunk framing is invisible *)
 Definition enc_sym (ts : tsym) : list N :=
   match snd ts with
   | SHead _ => [N.of_nat (4 * fst ts)]
+  | SChunk _ => []
   | SBody (Some _) => [N.of_nat (4 * fst ts + 1)]
   | SBody None => [N.of_nat (4 * fst ts + 2)]
   | STerm => []
@@ -106,10 +108,12 @@ Definition do_call (maxconns : nat) (reset lifo : bool) (d : dst) (t : nat) (o :
   | Some s1 =>
       if sc_wfail sc then let s2 := try_step s1 (LFail t OErr) in (mkD s2 ts (d_rd d), call_obs s2 ts t) else
       let s2 := try_step s1 (LWrite t reset) in
+      (* the scripted server delivers whatever it was holding back on this connection, then reads the request *)
+      let s2 := srv_sends s2 (HeldBy t) 64 in
       let s3 := try_step s2 (LSrvRead (HeldBy t) (sc_resp sc)) in
       let s4 := srv_sends s3 (HeldBy t) (sc_send sc) in
       let s5 := if sc_close sc then try_step s4 (LSrvClose (HeldBy t)) else s4 in
-      let s6 := read_loop (S (S (S (length (r_body (sc_resp sc)))))) s5 t in
+      let s6 := read_loop 48 s5 t in
       (mkD s6 ts (d_rd d), call_obs s6 ts t)
   end.
 
@@ -123,30 +127,52 @@ Definition rd_count (d : dst) (t : nat) : nat :=
   match find (fun p => Nat.eqb (fst p) t) (d_rd d) with Some p => snd p | None => 0 end.
 
 (* reading a requestStream: [status] ++ delivered units; status 0 = all n units, 1 = io.EOF reached, 2 = error *)
-Fixpoint stream_loop (n : nat) (s : st) (t : nat) (acc : list N) : st * list N :=
-  match n with
-  | 0 => (s, 0%N :: acc)
-  | S m =>
+Fixpoint stream_loop (fuel n : nat) (s : st) (t : nat) (acc : list N) : st * list N :=
+  match fuel, n with
+  | 0, _ | _, 0 => (s, 0%N :: acc)
+  | S f, S m =>
       match s_thr s t with
       | TRun x p k =>
           match p with
-          | PStreamLen 0 _ | PStreamLen _ true | PStreamChunked true | PStreamIdent true => (s, 1%N :: acc)
+          | PStreamLen 0 _ | PStreamLen _ true | PStreamChunked _ true | PStreamIdent true => (s, 1%N :: acc)
           | _ =>
               match c_inb k with
               | (tg, sy) :: _ =>
                   match step s (LStreamRead t) with
                   | Some s1 =>
-                      match sy, p with
-                      | STerm, PStreamChunked _ => (s1, 1%N :: acc)
-                      | _, _ => stream_loop m s1 t (acc ++ enc_sym (tg, sy))
+                      match p, sy with
+                      | PStreamChunked 0 _, STerm => (s1, 1%N :: acc)
+                      | PStreamChunked 0 _, _ => stream_loop f n s1 t acc        (* the chunk-size line: no unit yet *)
+                      | _, _ => stream_loop f m s1 t (acc ++ enc_sym (tg, sy))
                       end
                   | None => (s, 2%N :: acc)
                   end
               | [] =>
-                  if c_srvclosed k then (try_step s (LStreamEof t), 1%N :: acc) else (s, 2%N :: acc)
+                  if c_srvclosed k
+                  then match stream_eof p with
+                       | Some _ => (try_step s (LStreamEof t), 1%N :: acc)
+                       | None => (s, 2%N :: acc)
+                       end
+                  else (s, 2%N :: acc)
               end
           end
       | _ => (s, [OUTOFMODEL])
+      end
+  end.
+
+(* where connection number cid is *)
+Fixpoint idle_index (cid : nat) (l : list conn) (i : nat) : option nat :=
+  match l with
+  | [] => None
+  | k :: r => if Nat.eqb (c_id k) cid then Some i else idle_index cid r (S i)
+  end.
+Definition find_conn (s : st) (ts : list nat) (cid : nat) : option loc :=
+  match idle_index cid (s_idle s) 0 with
+  | Some i => Some (AtIdle i)
+  | None =>
+      match find (fun t => match s_thr s t with TRun _ _ k => Nat.eqb (c_id k) cid | _ => false end) ts with
+      | Some t => Some (HeldBy t)
+      | None => None
       end
   end.
 
@@ -160,6 +186,14 @@ Definition do_op (maxconns : nat) (reset lifo : bool) (d : dst) (o : op) : dst *
       let s1 := srv_sends s (HeldBy t) n in
       let s2 := if cl then try_step s1 (LSrvClose (HeldBy t)) else s1 in
       (mkD s2 (d_thr d) (d_rd d), [])
+  | OpSrvConn cid n cl =>
+      match find_conn s (d_thr d) cid with
+      | Some l =>
+          let s1 := srv_sends s l n in
+          let s2 := if cl then try_step s1 (LSrvClose l) else s1 in
+          (mkD s2 (d_thr d) (d_rd d), [])
+      | None => (d, [])
+      end
   | OpStreamRead t n =>
       match s_thr s t with
       | TRun x PHold _ =>
@@ -167,7 +201,7 @@ Definition do_op (maxconns : nat) (reset lifo : bool) (d : dst) (o : op) : dst *
           let units := enc (firstn_skipn a n (body_part (x_got x))) in
           let st_ := if Nat.ltb (length units) n then 1%N else 0%N in
           (mkD s (d_thr d) ((t, a + length units) :: d_rd d), st_ :: units)
-      | TRun _ _ _ => let '(s1, ob) := stream_loop n s t [] in (mkD s1 (d_thr d) (d_rd d), ob)
+      | TRun _ _ _ => let '(s1, ob) := stream_loop (S (S (n + n))) n s t [] in (mkD s1 (d_thr d) (d_rd d), ob)
       | _ => (d, [OUTOFMODEL])
       end
   | OpCloseStream t werr =>
